@@ -275,4 +275,11 @@ def r5_escape_obligations(ctx: Ctx) -> None:
     ctx.sample({"exception_classes": sorted(classes), "raised_at": {k: v for k, v in list(classes.items())[:8]}})
 
 
-RULES = [r1_handler_census, r2_entry_point_status, r3_error_values_consumed, r4_success_last, r5_escape_obligations]
+
+def rb_binding_agreement(ctx: Ctx) -> None:
+    from ..ownership import binding_agreement
+
+    binding_agreement(ctx)
+
+
+RULES = [r1_handler_census, r2_entry_point_status, r3_error_values_consumed, r4_success_last, r5_escape_obligations, rb_binding_agreement]
